@@ -420,5 +420,140 @@ theorem nexts_errGe (n : Nat) (t : Tokenizer) (h : ErrGe t) : ErrGe (nexts n t) 
 theorem err_rawE_eq (t : Tokenizer) (inv : Inv t) (h : ErrGe t) (he : t.err = true) : t.rawE = t.buf.size :=
   Nat.le_antisymm inv.ok.le (h he)
 
+/-! ### where a token ends -/
+
+/-- the last byte read is `>` -/
+def EndsGt (t : Tokenizer) : Prop := 1 ≤ t.rawE ∧ t.buf[t.rawE - 1]? = some 62
+/-- the next byte is `<` -/
+def AtLt (t : Tokenizer) : Prop := t.buf[t.rawE]? = some 60
+/-- "hit EOF, or stopped right after a `>`" -/
+def EndG (t : Tokenizer) : Prop := t.err = true ∨ EndsGt t
+
+theorem lastRead {t : Tokenizer} (herr : ¬ t.readByte.1.err = true) :
+    1 ≤ t.readByte.1.rawE ∧ t.readByte.1.buf[t.readByte.1.rawE - 1]? = some t.readByte.2 := by
+  have g := get_of_readByte herr
+  have e := readByte_succ herr
+  refine ⟨by omega, ?_⟩
+  rw [e, readByte_buf]
+  simpa using g.1
+
+theorem EndG.congr {t t' : Tokenizer} (h : EndG t) (e1 : t'.err = t.err) (e2 : t'.rawE = t.rawE) (e3 : t'.buf = t.buf) :
+    EndG t' := by
+  unfold EndG EndsGt at *
+  rw [e1, e2, e3]; exact h
+
+theorem endG_of_gt {t : Tokenizer} (herr : ¬ t.readByte.1.err = true) (h : (t.readByte.2 == 62) = true) :
+    EndG t.readByte.1 := by
+  have l := lastRead herr
+  have : t.readByte.2 = 62 := by simpa using h
+  exact Or.inr ⟨l.1, by rw [l.2, this]⟩
+
+theorem untilCloseAngleGo_end (t : Tokenizer) : EndG (untilCloseAngleGo t) := by
+  fun_induction untilCloseAngleGo t
+  all_goals (try simp +zetaDelta only at *)
+  case case1 => exact Or.inl (by assumption)
+  case case2 => exact (endG_of_gt (by assumption) (by assumption)).congr (by simp) (by simp) (by simp)
+  case case3 ih => exact ih
+
+theorem readUntilCloseAngle_end (t : Tokenizer) : EndG (readUntilCloseAngle t) := untilCloseAngleGo_end _
+
+theorem commentGo_end (t : Tokenizer) (d : Nat) : EndG (commentGo t d) := by
+  fun_induction commentGo t d
+  all_goals (try simp +zetaDelta only at *)
+  case case1 => exact Or.inl (by simpa using ‹_ = true›)
+  case case3 => exact (endG_of_gt (by assumption) (by assumption)).congr (by simp) (by simp) (by simp)
+  case case5 => exact Or.inl (by assumption)
+  case case6 => exact (endG_of_gt (by assumption) (by assumption)).congr (by simp) (by simp) (by simp)
+  all_goals assumption
+
+theorem readComment_end (t : Tokenizer) : EndG (readComment t) := by
+  unfold readComment
+  have := commentGo_end { t with dataS := t.rawE } 2
+  simp only
+  split
+  · exact this.congr rfl rfl rfl
+  · exact this
+
+theorem cdataGo_end (t : Tokenizer) (b : Nat) : EndG (cdataGo t b) := by
+  fun_induction cdataGo t b
+  all_goals (try simp +zetaDelta only at *)
+  case case1 => exact Or.inl (by assumption)
+  case case3 => exact (endG_of_gt (by assumption) (by assumption)).congr (by simp) (by simp) (by simp)
+  all_goals assumption
+
+theorem readDocType_end (t : Tokenizer) (h : (readDocType t).2 = true) : EndG (readDocType t).1 := by
+  unfold readDocType at h ⊢
+  simp only at h ⊢
+  split
+  · rename_i hf; simp [hf] at h
+  · split
+    · rename_i he; exact Or.inl he
+    · exact readUntilCloseAngle_end _
+
+theorem readCdata_end (t : Tokenizer) (h : (readCdata t).2 = true) : EndG (readCdata t).1 := by
+  unfold readCdata at h ⊢
+  simp only at h ⊢
+  split
+  · rename_i hf; simp [hf] at h
+  · exact cdataGo_end _ _
+
+theorem markupRest_end (t : Tokenizer) : EndG (markupRest t).1 := by
+  unfold markupRest
+  simp only
+  split
+  · rename_i h; exact readDocType_end t h
+  · split
+    · split
+      · rename_i h; exact (readCdata_end _ h).congr rfl rfl rfl
+      · exact readUntilCloseAngle_end _
+    · exact readUntilCloseAngle_end _
+
+theorem markupGo_end (t : Tokenizer) : EndG (markupGo t).1 := by
+  unfold markupGo
+  simp only
+  split
+  · rename_i h; exact Or.inl h
+  · split
+    · rename_i h; exact Or.inl h
+    · split
+      · exact readComment_end _
+      · exact markupRest_end _
+
+theorem readMarkupDeclaration_end (t : Tokenizer) : EndG (readMarkupDeclaration t).1 := markupGo_end _
+
+/-- `read_tag`'s attribute loop stops at EOF or right after the `>` (the `hang` case is excluded by `tagAttrsGo_adv`) -/
+theorem tagAttrsGo_end (t : Tokenizer) (s : Bool) : EndG (tagAttrsGo t s) ∨ (tagAttrsGo t s).hang = true := by
+  fun_induction tagAttrsGo t s
+  all_goals (try simp +zetaDelta only at *)
+  case case1 t _ h =>
+    by_cases he : t.readByte.1.err = true
+    · exact Or.inl (Or.inl he)
+    · have : (t.readByte.2 == 62) = true := by simpa [he] using h
+      exact Or.inl (endG_of_gt he this)
+  case case2 => exact Or.inl (Or.inl (by assumption))
+  case case3 ih => exact ih
+  case case4 => exact Or.inr (by first | trivial | rfl)
+
+theorem readTag_end (t : Tokenizer) (s : Bool) (ok : Ok t) (h1 : 1 ≤ t.rawE) : EndG (readTag t s) := by
+  have a := readTag_adv t s ok h1
+  have hh := a.ok.hang
+  unfold readTag at hh ⊢
+  simp only at hh ⊢
+  generalize ({ t with attrs := #[], nAttrRet := 0 } : Tokenizer).readTagName.skipWhiteSpace = t2 at *
+  by_cases he : t2.err = true
+  · rw [if_pos he]; exact Or.inl he
+  · rw [if_neg he] at hh ⊢
+    rcases tagAttrsGo_end t2 s with h | h
+    · exact h
+    · rw [hh] at h; cases h
+
+theorem readStartTag_end (t : Tokenizer) (ok : Ok t) (h1 : 1 ≤ t.rawE) : EndG (readStartTag t).1 := by
+  have e := readTag_end t true ok h1
+  have f := startTagRaw_fields (readTag t true)
+  have e2 : EndG (startTagRaw (readTag t true)) := e.congr f.1 f.2.1 f.2.2.1
+  unfold readStartTag
+  simp only
+  (repeat' split) <;> first | exact e | exact e2 | exact e2.congr rfl rfl rfl
+
 end Tokenizer
 end Rio.Html
